@@ -33,6 +33,10 @@ VALID = [
     ".include \"sub/pinc2.mac\"\n.include \"diag.mac\"\n",
     # every radix prefix, in upper and lower case (whatever the parser remembers about a prefix must not outlive the number)
     "nop\n\n\n        .word ^X1F, ^B101, ^O17, ^D99\n\tmov #^xff, r0\n\t.byte ^b11, ^o7, ^d8\n",
+    # caret groups nested in one another with different delimiters, and one alone
+    ".word ^/ 1 + ^| 2 | /\n", ".word ^| 5 | + 1, ^/ 4 /\n\t.word ^? ^/ 2 / + 1 ?\n",
+    # nothing but a statement that evaluates no operand at all
+    "halt\nrts pc\n",
 ]
 WARNING = [".byte\n", ".list\n", "mov @r1, r0\n", ".word\n.title demo\n", "clr @(r2)\nnop halt\n", ".include \"diag.mac\"\n"]
 ERROR = [".word undef\n", ".byte 400\n", "mov r0\n", "br far\n.blkb 1000\nfar:\n", "x: nop\nx: nop\n", ".word 1/0\n",
@@ -200,6 +204,13 @@ P8 = """        .byte ^O7
         .even
         mov #^B2, r0
 """
+# numbers of thousands of digits (converted to and from text outside any operand evaluation)
+P9 = "        emt 1 << 15000.\n        .word " + "7" * 5000 + ".\n        br . + <1 << 15000.>\n"
+P10 = """        .word ^| 6 / 2 |
+        .word ^/ 8 | 1 /
+        .word ^? ^| 6 / 2 | ?
+"""
+P11 = "        .word ^/ ^| 6 / 2 | /\n"
 P4FS = {
     "pinc.mac": "px1 == 5\n.word px1, priv\npriv = 3\nplbl:: nop\n",
     "sub/pinc2.mac": "insert_file \"../data.bin\"\n.word . / 2\n",
@@ -218,6 +229,9 @@ PROBES = [
     ("p6", [("p6.mac", P6)], P4FS),
     ("p7", [("p7.mac", P7)], None),
     ("p8", [("p8.mac", P8)], None),
+    ("p9", [("p9.mac", P9)], None),
+    ("p10", [("p10.mac", P10)], None),
+    ("p11", [("p11.mac", P11)], None),
 ]
 
 
@@ -228,7 +242,7 @@ def run_probe(files, fs, root=None):
             "emitted": [tuple(e) for e in r["emitted"]], "listing": r["listing"]}
 
 
-def _play_child(kinds, seed, wfd):
+def _play_child(kinds, seed, wfd, only=None):
     rnd = random.Random(seed)
     log = []
     # ONE directory for the whole history and the probes: the included files keep their absolute paths from assembly to assembly
@@ -251,6 +265,8 @@ def _play_child(kinds, seed, wfd):
         log.append((k, text if len(text) < 200 else text[:200] + "...", outcome, readings(), round(time.time() - t0, 3)))
     probes = {}
     for name, files, fs in PROBES:
+        if only is not None and name != only:
+            continue
         try:
             probes[name] = run_probe(files, (allfs if fs is not None else None), root)
         except BaseException as ex:  # noqa
@@ -260,15 +276,17 @@ def _play_child(kinds, seed, wfd):
 
 
 def play(arg):
-    """pmap item (hid, kinds, seed) -> (hid, result dict or None).  One forked child per history."""
-    hid, kinds, seed = arg
+    """pmap item (hid, kinds, seed[, only]) -> (hid, result dict or None).  One forked child per history.
+    only: name of the single probe to run (a probe ALONE in a fresh process: the other probes are assemblies, too)"""
+    hid, kinds, seed = arg[:3]
+    only = arg[3] if len(arg) > 3 else None
     rfd, wfd = os.pipe()
     pid = os.fork()
     if pid == 0:
         os.close(rfd)
         try:
             signal.signal(signal.SIGALRM, signal.SIG_DFL)
-            _play_child(kinds, seed, wfd)
+            _play_child(kinds, seed, wfd, only)
         finally:
             os._exit(0)
     os.close(wfd)
